@@ -513,6 +513,116 @@ def run_loaded(tag, order, present, seed, res):
     res.outcome(('loaded', tag, len(present)))
 
 
+# ---------------------------------------------------------------- depth-1 sweeps, exhaustive in the arguments
+def sweep_getters():
+    """Every getter over its whole argument range (ids, coordinates) and sizes crossing each edge by 0, 1 and many."""
+    g = []
+    sizes = (1, 2, 3, 16, 17)
+    for id in range(256):
+        for w in sizes:
+            for h in sizes:
+                if (id % 16 in (0, 1, 14, 15) or id // 16 in (0, 1, 14, 15) or (w, h) in ((1, 1), (2, 1), (1, 2))) and w * h <= 64 or \
+                        (id in (0, 15, 240, 255, 17) and True):
+                    g.append(('get_sprite', id, w, h))
+    for y in range(64):
+        for x in range(128):
+            g.append(('get_cell', x, y))
+    for x in (0, 1, 63, 125, 126, 127):
+        for y in (0, 1, 30, 31, 32, 33, 61, 62, 63):
+            # (the methods' contract: y + height <= 64; the right edge may be crossed)
+            for w in (1, 2, 3, 127, 128, 129):
+                for h in (1, 2, 3, 33, 64, 65):
+                    if y + h <= 64:
+                        g.append(('get_rect_tiles', x, y, w, h))
+            for (w, h) in ((1, 1), (2, 2), (1, 3), (3, 1), (4, 4)):
+                if y + h <= 64:
+                    g.append(('get_rect_pixels', x, y, w, h))
+    for id in range(256):
+        for fl in (1, 2, 0x40, 0x80, 0x55, 0xff):
+            g.append(('get_flags', id, fl))
+    for id in range(64):
+        for n in range(32):
+            g.append(('get_note', id, n))
+        g.append(('sfx_get_properties', id))
+        g.append(('music_get_properties', id))
+        for ch in range(4):
+            g.append(('get_channel', id, ch))
+    return g
+
+
+def sweep_setters():
+    """Every setter once over its whole id / coordinate range with boundary values (each applied to the same memory)."""
+    ops = []
+    for y in range(64):
+        for x in range(128):
+            ops.append(('set_cell', x, y, (x * 7 + y * 13 + 1) & 0xff))
+    for id in range(256):
+        ops.append(('set_sprite', id, '8x8', id % 16, 0, 0))
+        ops.append(('set_sprite', id, '9x9', (id + 3) % 16, id % 8, (id // 16) % 8))
+        for fn in ('set_flags', 'clear_flags', 'reset_flags'):
+            for fl in (1, 0x80, 0x5a, 0xff, 0):
+                ops.append((fn, id, fl))
+    for id in range(64):
+        for n in range(32):
+            ops.append(('set_note', id, n, (id + n) % 64, (id * 3 + n) % 16, n % 8, (id + n) % 8))
+            ops.append(('set_note', id, n, None, (n + id) % 16, None, None))
+        ops.append(('sfx_set_properties', id, id % 256, (id * 5 + 1) % 256, id, 63 - id))
+        for ch in range(4):
+            for pat in (None, 0, id, 63):
+                ops.append(('set_channel', id, ch, pat))
+        for a in (None, True, False):
+            ops.append(('music_set_properties', id, a, not a if a is not None else None, a))
+    for x in range(0, 128, 9):
+        for y in range(0, 64, 5):
+            ops.append(('set_rect_tiles', '3x3', x, y))
+    return ops
+
+
+SWEEP_PARTS = 24
+
+
+def light_observers(level):
+    return [('get_sprite', 0, 1, 1), ('get_cell', 0, 0), ('get_cell', 127, 63), ('get_flags', 0, 0xff), ('get_note', 0, 0),
+            ('sfx_get_properties', 63), ('get_channel', 63, 3), ('music_get_properties', 0)]
+
+
+def run_sweep(part, seed, res):
+    for init in (2, 1):
+        fills = initial_fills(init, seed)
+        mem = M.new_mem(fills)
+        g = carts.make_game({n: bytes(fills[n]) for n in REGIONS}, version=33)
+        before = carts.game_regions(g)
+        for i, ob in enumerate(sweep_getters()):
+            if i % SWEEP_PARTS != part:
+                continue
+            res.evaluations += 1
+            res.count('sweep_getter_calls')
+            want = norm_result(apply_model(mem, ob))
+            try:
+                have = norm_result(apply_impl(g, ob))
+            except Exception as e:
+                res.violation('C17|sweep|getter-raise|%s|%s' % (type(e).__name__, ob[0]), '%r raised %r' % (ob, e),
+                              {'sweep': 'getter', 'op': list(ob), 'init': init})
+                continue
+            if have != want:
+                res.violation('C17|sweep|getter|%s' % ob[0], '%r returned %r..., the memory says %r...' % (ob, str(have)[:80], str(want)[:80]),
+                              {'sweep': 'getter', 'op': list(ob), 'init': init})
+        if carts.game_regions(g) != before:
+            res.violation('C17|sweep|getter-mutates', 'a getter of sweep part %d changed cart memory' % part, {'sweep': 'getter-mutates', 'part': part, 'init': init})
+        for i, op in enumerate(sweep_setters()):
+            if i % SWEEP_PARTS != part:
+                continue
+            r = ShardResult()
+            step(mem, op, r, [], 1, light_observers)
+            res.evaluations += r.evaluations
+            res.transitions += r.transitions
+            res.count('sweep_setter_calls')
+            for sig, v in r.violations.items():
+                res.violation('C17|sweep|%s' % sig.split('|', 1)[1], v[0] + ' [sweep, initial contents %d]' % init,
+                              {'sweep': 'setter', 'op': list(op), 'init': init})
+            res.nontriv(('sweep', init, op))
+
+
 # ---------------------------------------------------------------- two carts that must not share memory
 TWIN_MODES = ['loaded-sparse-lua-only', 'loaded-sparse-gfx-only', 'loaded-sparse-no-map', 'loaded-full', 'loaded-png',
               'from_bytes-of-to_bytes', 'init-of-to_bytes', 'shared-caller-buffers-from_bytes', 'shared-caller-buffers-init',
@@ -641,12 +751,19 @@ def shards(tier, seed):
     lc = loaded_cases(tier)
     items += [('loaded', seed, lo, min(len(lc), lo + 12)) for lo in range(0, len(lc), 12)]
     items += [('twins', seed, m) for m in TWIN_MODES]
+    items += [('sweep', seed, k) for k in range(SWEEP_PARTS)]
     # heavy components first
-    items.sort(key=lambda it: 3 if it[0] in ('loaded', 'twins') else {'gfxmap': 0, 'sfx': 1}.get(it[2], 2))
+    items.sort(key=lambda it: 3 if it[0] in ('loaded', 'twins', 'sweep') else {'gfxmap': 0, 'sfx': 1}.get(it[2], 2))
     return items
 
 
 def run_shard(item):
+    if item[0] == 'sweep':
+        res = ShardResult()
+        run_sweep(item[2], item[1], res)
+        if item[2] == 0:
+            res.sample({'family': 'sweep', 'getters': len(sweep_getters()), 'setters': len(sweep_setters()), 'initial_contents': 2})
+        return res
     if item[0] == 'twins':
         res = ShardResult()
         run_twins(item[2], item[1], res)
@@ -671,6 +788,10 @@ def run_shard(item):
 
 def replay(case):
     res = ShardResult()
+    if 'sweep' in case:
+        for part in range(SWEEP_PARTS):
+            run_sweep(part, 0, res)
+        return [(s, v[0]) for s, v in res.violations.items()]
     if 'twins' in case:
         run_twins(case['twins'], 0, res)
         return [(s, v[0]) for s, v in res.violations.items()]
